@@ -541,6 +541,62 @@ def refresh_counters(prog, files=("lzma_encoder_optimum_normal.c", "lzma_encoder
     return out
 
 
+def check_end_input(ck, prog, rule="C06-ENDIN"):
+    """MicroLZMA has no end marker and no size fields: where the stream ends in the INPUT is known only from the
+    comp_size argument.  For "the total number of input bytes consumed does not depend on the slicing" every way of
+    reporting LZMA_STREAM_END has to be tied to coder->comp_size (the exact-size mode does that: STREAM_END with
+    comp_size != 0 becomes LZMA_DATA_ERROR).  A STREAM_END decided from the OUTPUT count alone leaves the input position
+    wherever the range decoder happened to be, which depends on how much input each call offered."""
+    from sa import guard
+    ck.rule(rule, "microlzma_decode: every path that ends with LZMA_STREAM_END passes a test of coder->comp_size")
+    f = prog.fn("microlzma_decode", "microlzma_decoder.c")
+    ck.saw_function(f)
+    cg = common.callgraph(prog)
+    rs = common.retsets(prog)
+    rets = common.lzma_ret(prog)
+    kret = fd.Key("var", "ret", domain=rets.values(), label="ret")
+    g = fd.FD(prog, f, [kret, fd.Key("retval", "$ret", label="$ret")], cg=cg, call_values=lambda c, s_: rs.call_set(c, f))
+    from sa import machine
+    g.run([g.make_state(**{"$ret": [machine.NO_RETURN_YET]})])
+    END = rets["LZMA_STREAM_END"]
+    calls = [b.id for b, i, e in f.iter_elems() for c in ex.calls(e, into_refs=False)
+             if c.get("callee") is not None and "code" in ex.show(c["callee"]) and len(c.get("args", ())) == 9]
+    if not calls:
+        raise AnalysisBroken("microlzma_decode: call of the LZMA decoder not found")
+    tests = {b.id for b in f.blocks.values() if b.term and "cond" in b.term and
+             any(x.get("k") == "mem" and x["f"] == "comp_size" for x in ex.walk(b.term["cond"]))}
+    if not tests:
+        raise AnalysisBroken("microlzma_decode: no test of coder->comp_size found")
+    last = max(calls, key=lambda bid: f.blocks[bid].elems and ex.line(f.blocks[bid].elems[0]) or 0)
+    after = cfg.reachable(f, [y for y in f.blocks[last].succs if y is not None])
+    modes = [b for b in f.blocks.values() if (b.id in after or b.id == last) and b.term and "cond" in b.term and len(b.succs) == 2 and
+             ex.show(ex.strip(b.term["cond"])).endswith("uncomp_size_is_exact")]
+    if len(modes) != 1:
+        raise AnalysisBroken("microlzma_decode: the branch on coder->uncomp_size_is_exact after the LZMA decoder call was not found")
+
+    def at_end(nd):
+        if nd[0] != f.exit:
+            return None
+        v = g.get(nd[1], "$ret")
+        return "LZMA_STREAM_END" if v is None or END in v else None
+    for mode, succ in (("exact", modes[0].succs[0]), ("inexact", modes[0].succs[1])):
+        src = [nd for nd in g.nodes if nd[0] == succ]
+        path, hit = guard.cut_reach(g, src, set(), at_end, cut_blocks=tests)
+        where_ = None
+        if path:
+            for nd in path:
+                for e in f.blocks[nd[0]].elems:
+                    if e is not None and "LZMA_STREAM_END" in ex.show(e):
+                        where_ = e
+        ck.ob(rule, "microlzma_decode:" + mode, path is None, common.where(f, where_),
+              "microlzma_decode (%s size): LZMA_STREAM_END is reported only after a test of coder->comp_size" % mode if path is None else
+              "microlzma_decode(): with uncomp_size_is_exact %s LZMA_STREAM_END is reported on a path (blocks %s) that never "
+              "tests coder->comp_size: the stream ends when the declared number of OUTPUT bytes exists, and the number of input "
+              "bytes consumed at that moment (strm->total_in) depends on how the input was sliced" % (
+                  "true" if mode == "exact" else "== false", " -> ".join(str(nd[0]) for nd in path[:12])),
+              key="ENDIN:microlzma_decode:" + mode)
+
+
 def check_encreset(ck, prog, rule):
     """The price tables of the LZMA encoder are caches of the probabilities; they are recomputed when the matching
     price count reaches a threshold.  A state reset re-initialises the probabilities, so it must also make the
@@ -610,6 +666,7 @@ def run(ck):
          "the whole dictionary stays addressable behind read_pos after a window move"),
     ], rule="C06-PROV", floor=2)
     check_encreset(ck, prog, "C06-ENCRESET")
+    check_end_input(ck, prog)
     from . import C01 as _C01
     _C01.check_emit_state(ck, prog, "C06-EMITSTATE")
     ck.rule("C06-APPLY", "an amount measured in this call (bytes used, padding found) is applied to the persistent member "
